@@ -2,14 +2,14 @@
 # process finished round-3 mutation worktrees: confirm, store, evaluate, remove the worktree
 export GOFLAGS=-mod=mod GOPROXY=off GOSUMDB=off GOTOOLCHAIN=local
 cd /verif
-for wt in /tmp/mut3/C??; do
+for wt in ${MUTDIR:-/tmp/mut3}/C??; do
   p=$(basename $wt)
-  [ -f $wt/MUT/m3/patch.diff ] && [ -f $wt/MUT/m3/demo_test.go ] && [ -f $wt/MUT/m3/meta.json ] || continue
-  [ -d seeded/$p-m3 ] && continue
+  [ -f $wt/MUT/${MUTTAG:-m3}/patch.diff ] && [ -f $wt/MUT/${MUTTAG:-m3}/demo_test.go ] && [ -f $wt/MUT/${MUTTAG:-m3}/meta.json ] || continue
+  [ -d seeded/$p-${MUTTAG:-m3} ] && continue
   [ -n "$1" ] && [ "$1" != "$p" ] && continue
   echo "== $p"
-  python3 tools/seedtool.py confirm $wt $p m3 || { echo "$p NOT CONFIRMED"; continue; }
-  python3 tools/seedtool.py eval seeded/$p-m3
+  python3 tools/seedtool.py confirm $wt $p ${MUTTAG:-m3} || { echo "$p NOT CONFIRMED"; continue; }
+  python3 tools/seedtool.py eval seeded/$p-${MUTTAG:-m3}
   git -C /repo worktree remove --force $wt
 done
 git -C /repo status --short | head -3
